@@ -18,8 +18,7 @@ Inductive panic :=
 | PCopyLenLt4 | PCopyLenGe25
 | PDictIndex            (* kBrotliDictionary[..] / kTransforms[..] index out of range *)
 | PDictAssertEq         (* assert_eq!(transformed word, input) *)
-| PSubOverflow          (* `attempt to subtract with overflow` (dev profile) *)
-| PSliceLen32.          (* debug_assert!(len <= 0xffff_ffff) in freeze *)
+| PSubOverflow.         (* `attempt to subtract with overflow` (dev profile) *)
 Inductive outcome (A : Type) := Done (a : A) | Panic (p : panic) | OutOfFuel.
 Arguments Done {A} a.
 Arguments Panic {A} p.
@@ -57,6 +56,14 @@ Definition bs_tail (b : bsplit) : list (N * N) := tl (combine (bs_types b) (bs_l
 Definition bs_types_ok (b : bsplit) : bool :=
   fold_right N.max 0 (bs_types b) + 1 =? bs_num_types b.
 
+(* what LogMetaBlock / process_command_queue need of a block split not to panic: the
+   assert_eq! on num_types, a first length when there is more than one type, and (command and
+   distance splits, whose counters are decremented once per command) no zero-length block *)
+Definition split_ok (strict : bool) (b : bsplit) : bool :=
+  bs_types_ok b
+  && ((bs_num_types b =? 1) || negb (match bs_lengths b with [] => true | _ => false end))
+  && (negb strict || forallb (fun l => 1 <=? l) (bs_lengths b)).
+
 Section Recoder.
 Variable dict_word : N -> N -> list N.
 Variable transforms : list (list N * N * list N).
@@ -71,20 +78,43 @@ Definition lit_he : bool := negb has_context_type && negb (he_quality =? 0).
 (* the `while tmp_inserts.len() > btypel_sub` loop; returns (tmp_inserts, btypel_sub, rest of
    the literal split, mb_len, IR pushed) *)
 Fixpoint lit_loop (fuel : nat) (tmp : ipair) (sub : N) (rest : list (N * N)) (mb_len : N)
-         (acc : list ir_cmd) : outcome (ipair * N * list (N * N) * N * list ir_cmd) :=
-  if ip_len tmp <=? sub then Done (tmp, sub, rest, mb_len, acc) else
+  : outcome (ipair * N * list (N * N) * N * list ir_cmd) :=
+  if ip_len tmp <=? sub then Done (tmp, sub, rest, mb_len, []) else
   match fuel with
   | O => OutOfFuel
   | S f =>
     let (a, b) := ip_split_at tmp sub in
-    let acc := acc ++ push_literals a lit_he in
     if mb_len <? ip_len a then Panic PSubOverflow else
     let mb_len := mb_len - ip_len a in
     match rest with
-    | (t, l) :: rest' => lit_loop f b l rest' mb_len (acc ++ [IrBlockSwitchLiteral t 0])
-    | [] => lit_loop f b (2 ^ 31) [] mb_len acc
+    | (t, l) :: rest' =>
+      match lit_loop f b l rest' mb_len with
+      | Done (x, ir) => Done (x, push_literals a lit_he ++ IrBlockSwitchLiteral t 0 :: ir)
+      | Panic p => Panic p
+      | OutOfFuel => OutOfFuel
+      end
+    | [] =>
+      match lit_loop f b (2 ^ 31) [] mb_len with
+      | Done (x, ir) => Done (x, push_literals a lit_he ++ ir)
+      | Panic p => Panic p
+      | OutOfFuel => OutOfFuel
+      end
     end
   end.
+
+(* `if inserts.len() != 0 { ... }`: (btypel_sub, rest of the literal split, mb_len, IR pushed) *)
+Definition rec_literals (inserts : ipair) (sub : N) (rest : list (N * N)) (mb_len : N)
+  : outcome (N * list (N * N) * N * list ir_cmd) :=
+  if ip_len inserts =? 0 then Done (sub, rest, mb_len, [])
+  else
+    match lit_loop (length rest + 2 + N.to_nat (ip_len inserts / 2 ^ 31)) inserts sub rest mb_len with
+    | Done (tmp, sub, rest, ml, ir) =>
+      let ir := ir ++ push_literals tmp lit_he in
+      if ip_len tmp =? 0 then Done (sub, rest, ml, ir)
+      else Done (sub - ip_len tmp, rest, ml - ip_len tmp, ir)
+    | Panic p => Panic p
+    | OutOfFuel => OutOfFuel
+    end.
 
 (* `sub -= 1; if sub == 0 { counter += 1; ... }` of the command / distance block splits *)
 Definition tick (sub : N) (rest : list (N * N)) (mk : N -> ir_cmd) : outcome (N * list (N * N) * list ir_cmd) :=
@@ -97,6 +127,40 @@ Definition tick (sub : N) (rest : list (N * N)) (mk : N -> ir_cmd) : outcome (N 
     end
   else Done (sub, rest, []).
 
+Definition as_i32 (x : N) : Z :=
+  let y := x mod 2 ^ 32 in if y <? 2 ^ 31 then Z.of_N y else (Z.of_N y - 2 ^ 32)%Z.
+Definition as_usize (z : Z) : N := Z.to_N (z mod 2 ^ 64)%Z.
+
+(* `if final_distance > max_distance { dictionary } else { copy }`:
+   (IR pushed, mb_len, actual_copy_len, local_dist_cache) *)
+Definition rec_copy (idx : N) (off : Z) (final_distance copy_len max_distance : N) (interim : ipair)
+           (ml : N) (cache : list Z) : outcome (list ir_cmd * N * N * list Z) :=
+  if max_distance <? final_distance then
+    if copy_len <? 4 then Panic PCopyLenLt4 else
+    if 25 <=? copy_len then Panic PCopyLenGe25 else
+    let dictionary_offset := final_distance - max_distance - 1 in
+    let nb := ndbits copy_len in
+    let action := N.shiftr dictionary_offset nb in
+    let word_sub_index := N.land dictionary_offset (N.shiftl 1 nb - 1) in
+    match apply_transform transforms action (dict_word copy_len word_sub_index) with
+    | None => Panic PDictIndex
+    | Some w =>
+      let actual := N.of_nat (length w) in
+      if actual <=? ml then
+        let got := map mb_at (ip_positions (fst (ip_split_at interim actual))) in
+        if negb (list_eqb w got) then Panic PDictAssertEq
+        else Done ([IrDict (w8 copy_len) (w8 action) (w8 actual) 0 (w32 word_sub_index)], ml - actual, actual, cache)
+      else if negb (ml =? 0) then
+        Done (push_literals (fst (ip_split_at interim ml)) false, 0, actual, cache)
+      else Done ([], ml, actual, cache)
+    end
+  else
+    let actual := N.min ml copy_len in
+    let ir := if actual =? 0 then [] else [IrCopy (w32 final_distance) (w32 actual)] in
+    let cache' := if (idx =? 1) && (off =? 0)%Z then cache
+                  else as_i32 final_distance :: firstn 3 cache in
+    Done (ir, ml - actual, actual, cache').
+
 Record rec_state := {
   input_iter : ipair;
   cache : list Z;                 (* local_dist_cache, i32 *)
@@ -107,67 +171,21 @@ Record rec_state := {
   nbe : N                         (* recoder_state.num_bytes_encoded *)
 }.
 
-Definition as_i32 (x : N) : Z :=
-  let y := x mod 2 ^ 32 in if y <? 2 ^ 31 then Z.of_N y else (Z.of_N y - 2 ^ 32)%Z.
-Definition as_usize (z : Z) : N := Z.to_N (z mod 2 ^ 64)%Z.
-
-Definition check_len32 (l : list ir_cmd) : bool :=
-  forallb (fun c => match c with IrLiteral _ n _ => n <=? 4294967295 | _ => true end) l.
-
-(* one iteration of `for cmd in commands.iter()` *)
+(* one iteration of `for cmd in commands.iter()`.  (freeze()'s debug_assert!(len <= u32::MAX) is
+   not modelled: meta-block inputs are far below 2^32 bytes.) *)
 Definition rec_cmd (cmd : command) (s : rec_state) : outcome (list ir_cmd * rec_state) :=
   let (inserts, interim) := ip_split_at (input_iter s) (N.min (insert_len_ cmd) (mb_len s)) in
   let nbe1 := nbe s + ip_len inserts in
-  let copylen_code := cmd_copy_len_code cmd in
+  let copy_len := cmd_copy_len_code cmd in
   let (idx, off) := distance_index_and_offset (dist_prefix_ cmd) (dist_extra_ cmd) nd np in
   let final_distance := if idx =? 0 then as_usize off else as_usize (ring_get (cache s) (idx - 1) + off) in
-  let copy_len := copylen_code in
   let max_distance := N.min nbe1 (2 ^ lgwin - 16) in
   if mb_len s <? ip_len inserts then Panic PAssertInserts else
-  (* literals *)
-  match
-    (if ip_len inserts =? 0 then Done (l_sub s, l_rest s, mb_len s, [])
-     else
-       match lit_loop (length (l_rest s) + 2 + N.to_nat (ip_len inserts / 2 ^ 31)) inserts (l_sub s) (l_rest s) (mb_len s) [] with
-       | Done (tmp, sub, rest, ml, acc) =>
-         let acc := acc ++ push_literals tmp lit_he in
-         if ip_len tmp =? 0 then Done (sub, rest, ml, acc)
-         else Done (sub - ip_len tmp, rest, ml - ip_len tmp, acc)
-       | Panic p => Panic p
-       | OutOfFuel => OutOfFuel
-       end)
-  with
+  match rec_literals inserts (l_sub s) (l_rest s) (mb_len s) with
   | Panic p => Panic p
   | OutOfFuel => OutOfFuel
   | Done (lsub, lrest, ml, ir_lit) =>
-    (* dictionary reference or backward copy *)
-    match
-      (if max_distance <? final_distance then
-         if copy_len <? 4 then Panic PCopyLenLt4 else
-         if 25 <=? copy_len then Panic PCopyLenGe25 else
-         let dictionary_offset := final_distance - max_distance - 1 in
-         let nb := ndbits copy_len in
-         let action := N.shiftr dictionary_offset nb in
-         let word_sub_index := N.land dictionary_offset (N.shiftl 1 nb - 1) in
-         match apply_transform transforms action (dict_word copy_len word_sub_index) with
-         | None => Panic PDictIndex
-         | Some w =>
-           let actual := N.of_nat (length w) in
-           if actual <=? ml then
-             let got := map mb_at (ip_positions (fst (ip_split_at interim actual))) in
-             if negb (list_eqb w got) then Panic PDictAssertEq
-             else Done ([IrDict (w8 copy_len) (w8 action) (w8 actual) 0 (w32 word_sub_index)], ml - actual, actual, cache s)
-           else if negb (ml =? 0) then
-             Done (push_literals (fst (ip_split_at interim ml)) false, 0, actual, cache s)
-           else Done ([], ml, actual, cache s)
-         end
-       else
-         let actual := N.min ml copy_len in
-         let ir := if actual =? 0 then [] else [IrCopy (w32 final_distance) (w32 actual)] in
-         let cache' := if (idx =? 1) && (off =? 0)%Z then cache s
-                       else as_i32 final_distance :: firstn 3 (cache s) in
-         Done (ir, ml - actual, actual, cache'))
-    with
+    match rec_copy idx off final_distance copy_len max_distance interim ml (cache s) with
     | Panic p => Panic p
     | OutOfFuel => OutOfFuel
     | Done (ir_copy, ml2, actual_copy_len, cache') =>
@@ -182,9 +200,7 @@ Definition rec_cmd (cmd : command) (s : rec_state) : outcome (list ir_cmd * rec_
         | OutOfFuel => OutOfFuel
         | Done (dsub, drest, ir_d) =>
           let (copied, remainder) := ip_split_at interim actual_copy_len in
-          let ir := ir_lit ++ ir_copy ++ ir_c ++ ir_d in
-          if negb (check_len32 ir) then Panic PSliceLen32 else
-          Done (ir,
+          Done (ir_lit ++ ir_copy ++ ir_c ++ ir_d,
                 {| input_iter := remainder; cache := cache';
                    l_sub := lsub; l_rest := lrest; c_sub := csub; c_rest := crest;
                    d_sub := dsub; d_rest := drest; mb_len := ml2;
